@@ -600,9 +600,9 @@ pub fn run(ctx: &mut Ctx) {
         ("cli", "er-small", if q { 24 } else { 400 }),
         ("cli", "union", if q { 40 } else { 600 }),
         ("cli", "lattice", if q { 40 } else { 600 }),
-        ("cli-sweep", "er-small", if q { 24 } else { 300 }),
-        ("cli-sweep", "union", if q { 16 } else { 200 }),
-        ("cli-sweep", "lattice", if q { 8 } else { 100 }),
+        ("cli-sweep", "er-small", if q { 24 } else { 100 }),
+        ("cli-sweep", "union", if q { 16 } else { 60 }),
+        ("cli-sweep", "lattice", if q { 8 } else { 40 }),
     ];
     let mut gi = 0u64;
     for (mode, family, count) in schedule {
